@@ -16,6 +16,7 @@
 #include "QXmppMucIq.h"
 #include "QXmppVCardIq.h"
 #include "QXmppDiscoveryIq.h"
+#include "QXmppGeolocItem.h"
 #include "QXmppRosterIq.h"
 #include "QXmppMamIq.h"
 #include "QXmppOutOfBandUrl.h"
@@ -315,13 +316,14 @@ static bool hasBlank(const Vals &vs)
     return false;
 }
 // path of the first difference ("" when equal)
-static std::string diffPath(const Vals &a, const Vals &b, const std::vector<std::string> *names)
+static std::string diffPath(const Vals &a, const Vals &b, const std::vector<std::string> *names, bool inList = false)
 {
     for (size_t i = 0; i < std::max(a.size(), b.size()); i++) {
-        std::string here = names && i < names->size() ? (*names)[i] : std::to_string(i);
+        // positions inside a repeated part are not part of the key (the same cause at item 0 and item 2 is one finding)
+        std::string here = names && i < names->size() ? (*names)[i] : inList ? std::string("*") : std::to_string(i);
         if (i >= a.size() || i >= b.size()) return here;
         if (showVal(a[i]) == showVal(b[i])) continue;
-        if (a[i].kind == b[i].kind && (a[i].kind == 'R' || a[i].kind == 'L')) return here + "." + diffPath(a[i].items, b[i].items, nullptr);
+        if (a[i].kind == b[i].kind && (a[i].kind == 'R' || a[i].kind == 'L')) return here + "." + diffPath(a[i].items, b[i].items, nullptr, a[i].kind == 'L');
         return here;
     }
     return "";
@@ -801,7 +803,7 @@ static std::vector<ClassEntry> classTable()
             [=](QXmppRosterIq &o, const Vals &v) { o.setVersion(v.at(0).s); o.setMixAnnotate(v.at(1).kind == 'R'); for (auto &it : v.at(2).items) o.addItem(itemOf(it.items)); }));
         t.back().sortTag = "group";
     }
-    // ---- XEP-0004 data forms (single-valued field types; see Classes.lean)
+    // ---- XEP-0004 data forms (see Classes.lean: formValue)
     auto formVals = [](const QXmppDataForm &f) {
         using F = QXmppDataForm::Field;
         if (f.isNull()) {
@@ -811,28 +813,41 @@ static std::vector<ClassEntry> classTable()
         }
         Vals fields;
         for (auto &fl : f.fields()) {
-            int ti = -1;
+            if (!fl.mediaSources().isEmpty()) g_outsideModel = true;   // <media/>: QUrl / QMimeType, not modelled
+            Val v; Vals opts;
             switch (fl.type()) {
-            case F::FixedField: ti = 0; break; case F::HiddenField: ti = 1; break; case F::JidSingleField: ti = 2; break;
-            case F::TextPrivateField: ti = 3; break; case F::TextSingleField: ti = 4; break;
-            default: break;
+            case F::BooleanField: v = vB(fl.value().toBool()); break;
+            case F::ListMultiField: case F::JidMultiField: case F::TextMultiField: {
+                Vals items; for (auto &s : fl.value().toStringList()) items.push_back(vS(s));
+                v = vL(items); break; }
+            default:
+                // a QString that may be null (no <value/>): null and empty are different values
+                v = fl.value().isNull() ? vA() : vS(fl.value().toString());
             }
-            if (ti < 0 || !fl.mediaSources().isEmpty()) { g_outsideModel = true; ti = 4; }
-            fields.push_back(vR({ vN(quint64(ti)), vS(fl.label()), vS(fl.key()), vR({ vS(fl.value().toString()) }), vR({ vS(fl.description()) }),
+            if (fl.type() == F::ListMultiField || fl.type() == F::ListSingleField)
+                for (auto &o : fl.options()) opts.push_back(vR({ vS(o.first), vR({ vS(o.second) }) }));
+            fields.push_back(vR({ vR({ vN(quint64(int(fl.type()))), v, vL(opts) }), vS(fl.label()), vS(fl.key()), vR({ vS(fl.description()) }),
                                   fl.isRequired() ? vR({}) : vA() }));
         }
         return vR({ vO(true, quint64(int(f.type()) - 1)), vR({ vS(f.title()) }), vR({ vS(f.instructions()) }), vL(fields) });
     };
     auto formOf = [](const Val &w) {
         using F = QXmppDataForm::Field;
-        static const F::Type T[] = { F::FixedField, F::HiddenField, F::JidSingleField, F::TextPrivateField, F::TextSingleField };
         QXmppDataForm f; auto &v = w.items;
         f.setType(v.at(0).has ? QXmppDataForm::Type(int(v.at(0).n) + 1) : QXmppDataForm::None);
         f.setTitle(v.at(1).items.at(0).s); f.setInstructions(v.at(2).items.at(0).s);
         QList<F> fl;
         for (auto &it : v.at(3).items) {
-            auto &x = it.items; F fd(T[x.at(0).n]);
-            fd.setLabel(x.at(1).s); fd.setKey(x.at(2).s); fd.setValue(x.at(3).items.at(0).s); fd.setDescription(x.at(4).items.at(0).s); fd.setRequired(x.at(5).kind == 'R');
+            auto &x = it.items; auto &tv = x.at(0).items;
+            F fd(F::Type(int(tv.at(0).n)));
+            const Val &val = tv.at(1);
+            if (val.kind == 'b') fd.setValue(val.b);
+            else if (val.kind == 'L') { QStringList l; for (auto &s : val.items) l << (s.s.isNull() ? QString("") : s.s); fd.setValue(l); }
+            else if (val.kind == 's') fd.setValue(val.s.isNull() ? QString("") : val.s);   // non-null, possibly empty
+            QList<QPair<QString, QString>> opts;
+            for (auto &o : tv.at(2).items) opts << qMakePair(o.items.at(0).s, o.items.at(1).items.at(0).s);
+            if (!opts.isEmpty()) fd.setOptions(opts);
+            fd.setLabel(x.at(1).s); fd.setKey(x.at(2).s); fd.setDescription(x.at(3).items.at(0).s); fd.setRequired(x.at(4).kind == 'R');
             fl << fd;
         }
         f.setFields(fl);
@@ -965,9 +980,8 @@ static std::vector<ClassEntry> classTable()
         entry("PubSubSubscriptionEvent", "http://jabber.org/protocol/pubsub#event", { "jid", "node", "state", "subId", "expiry" },
             [=](const S &o) {
                 if (o.configurationSupport() != S::Unavailable) g_outsideModel = true;
-                // a valid date-time that datetimeToString() cannot print (UTC year > 9999) is written as expiry="": recorded finding
-                // C02:not-fixpoint:PubSubSubscriptionEvent; the schema's date-time type has no such value
-                if (o.expiry().isValid() && QXmppUtils::datetimeToString(o.expiry()).isEmpty()) g_outsideModel = true;
+                // (a valid date-time that datetimeToString() cannot print, UTC year > 9999, is not written since /repo 339fb3c and
+                //  reported as "no date" by vD: fixed finding C02:not-fixpoint:PubSubSubscriptionEvent)
                 return Vals { vS(o.jid()), vS(o.node()), stateV(o), vS(o.subId()), vD(o.expiry()) };
             },
             [=](const Vals &v) { S o; o.setJid(v.at(0).s); o.setNode(v.at(1).s); o.setState(stateOf(v.at(2))); o.setSubId(v.at(3).s); o.setExpiry(dateOf(v.at(4))); return o; });
@@ -1238,14 +1252,48 @@ int main(int argc, char **argv)
             { "ResultSetReply", "<x><set xmlns=\"http://jabber.org/protocol/rsm\"><first index=\"-7\"/></set></x>" },
             // tls-0rtt dropped by toXml before /repo e3c2af8
             { "FastFeature", "<fast xmlns=\"urn:xmpp:fast:0\" tls-0rtt=\"true\"/>" },
-            // MAM query id read from `queryId`, written as `queryid`: the first pass writes it, the second loses it (recorded finding)
+            // MAM query id was read from `queryId` but written as `queryid` before /repo dfee378: the second pass lost it
             { "MamQueryIq", "<query xmlns=\"urn:xmpp:mam:2\" queryId=\"q1\"/>" },
-            // expiry in UTC year 10000: valid, written as expiry="" (datetimeToString gives nothing), dropped by the second pass (recorded finding)
+            // expiry in UTC year 10000: valid, was written as expiry="" and dropped by the second pass before /repo 339fb3c
             { "PubSubSubscriptionEvent", "<subscription jid=\"a@b\" expiry=\"9999-12-31T23:59:59-01:00\"/>" },
         };
         for (auto &row : CORPUS)
             for (auto &c : table)
                 if (c.name == row[0]) { corr("codec-reset " + c.name, "ok"); DocResult r; if (processDoc(c, QByteArray(row[1]), "corpus", r)) stat("corpus_documents"); }
+    }
+    // (0b) witnesses of recorded findings that lie outside the canonical values of a schema (evaluated on the real class only)
+    {
+        // QXmppStanza::Error with by / text but neither type nor condition: the setters accept it, toXml writes nothing
+        QXmppStanza::Error e; e.setBy(QStringLiteral("a@b")); e.setText(QStringLiteral("x"));
+        QByteArray out; { QBuffer buf(&out); buf.open(QIODevice::WriteOnly); QXmlStreamWriter w(&buf); w.writeStartElement("iq"); w.writeDefaultNamespace("jabber:client"); e.toXml(&w); w.writeEndElement(); }
+        QDomDocument doc; QXmppStanza::Error back;
+        if (doc.setContent(out, true)) { auto ee = firstChildElement(doc.documentElement(), u"error"); if (!ee.isNull()) back.parse(ee); }
+        if (back.text() != e.text() || back.by() != e.by()) fail("C01:field-mismatch:StanzaError:fields-without-type-and-condition", "by=a@b text=x -> " + out.toStdString());
+        else oraclePass()++;
+    }
+    // (0c) RUNTIME oracle (no Lean model: doubles are opaque tokens for tier C): QXmppGeolocItem keeps what it is given
+    {
+        auto roundtrip = [&](double lat, double lon, double acc, const std::string &what) {
+            QXmppGeolocItem it; it.setId(QStringLiteral("i")); it.setLatitude(lat); it.setLongitude(lon); it.setAccuracy(acc);
+            QByteArray out = ser(it);
+            QDomDocument doc; QXmppGeolocItem back;
+            if (!doc.setContent(out, true)) { fail("C01:own-output-not-wellformed:QXmppGeolocItem", what); return; }
+            back.parse(doc.documentElement());
+            auto same = [](std::optional<double> a, std::optional<double> b) { return a.has_value() == b.has_value() && (!a || *a == *b); };
+            std::string rep = what + " -> " + out.toStdString();
+            if (!same(it.latitude(), back.latitude())) fail("C01:field-mismatch:QXmppGeolocItem:latitude", rep); else oraclePass()++;
+            if (!same(it.longitude(), back.longitude())) fail("C01:field-mismatch:QXmppGeolocItem:longitude", rep); else oraclePass()++;
+            if (!same(it.accuracy(), back.accuracy())) fail("C01:field-mismatch:QXmppGeolocItem:accuracy", rep); else oraclePass()++;
+            stat("geoloc_double_roundtrips");
+        };
+        roundtrip(48.123456789, 11.987654321, 12.3456789, "lat=48.123456789 lon=11.987654321 accuracy=12.3456789");   // witness of the recorded finding
+        roundtrip(48.5, -11.25, 3, "lat=48.5 lon=-11.25 accuracy=3");
+        for (int i = 0; i < (thorough ? 2000 : 200); i++) {
+            double lat = (double(rng.below(1u << 30)) / double(1u << 30)) * 180.0 - 90.0, lon = (double(rng.below(1u << 30)) / double(1u << 30)) * 360.0 - 180.0;
+            double acc = double(rng.below(1u << 30)) / 1024.0;
+            char buf[128]; snprintf(buf, sizeof buf, "lat=%.17g lon=%.17g accuracy=%.17g", lat, lon, acc);
+            roundtrip(lat, lon, acc, buf);
+        }
     }
     const int mutationsPerDoc = thorough ? 6 : 3;
     size_t g = 0;
